@@ -625,8 +625,13 @@ def ipdoms(mir):
 # ------------------------------------------------------------------------------------------
 # interpreter
 # ------------------------------------------------------------------------------------------
+# wall-clock deadline of the whole check (set by bin/check from the tier): once passed, every further interpretation
+# ends as UNDECIDED - a rewrite on which the interpreter's paths explode costs minutes, never hours, and never a verdict
+DEADLINE = [None]
+
+
 class Interp(object):
-    def __init__(self, facts, max_steps=2000000, max_paths=512):
+    def __init__(self, facts, max_steps=500000, max_paths=512):
         self.facts = facts
         self.max_steps = max_steps
         self.max_paths = max_paths
@@ -1161,6 +1166,10 @@ class Interp(object):
             self.steps += 1
             if self.steps > self.max_steps:
                 raise Undecided("step budget")
+            if not (self.steps & 255) and DEADLINE[0] is not None:
+                import time as _time
+                if _time.time() > DEADLINE[0]:
+                    raise Undecided("wall-clock budget of the check")
             blk = blocks[bb]
             for s in blk["stmts"]:
                 k = s["k"]
